@@ -312,6 +312,10 @@ def rule_R5(ctx, f):
     pushes = [c for c in b.calls_to("Vec::push") if peel(c.args[1]) == peel(sc[0].args[0])]
     sb = b.calls_to(["set_bucket"])
     okp = same and len(pushes) == 1 and len(sb) == 1 and peel(sb[0].args[1]) == peel(pushes[0].args[0]) and sb[0].bb not in b.reach(pushes[0].bb, avoid_blocks=[]) - b.reach(sb[0].bb) or (same and len(pushes) == 1 and len(sb) == 1 and peel(sb[0].args[1]) == peel(pushes[0].args[0]))
+    if okp:
+        # one Bucket per bound: no path through the loop body reaches the next bound without the push (an empty bucket is still reported)
+        from . import hash_common as hcm_
+        okp = hcm_.every_element(b, pushes[0], via=su[0]) is True and sb[0].bb not in b.reach(pushes[0].bb, avoid_blocks=[sb[0].bb]) - {sb[0].bb} and count_range(b, [sb[0].bb]) == (1, 1)
     ctx.ob(rid, "proto|one-bucket-per-bound", okp, "each iteration pushes the Bucket it filled; set_bucket receives that vector", site=sb[0].span if sb else b.raw["span"]["at"])
 
 
